@@ -58,6 +58,8 @@ class Query:
     order_by: list[Order] = dataclasses.field(default_factory=list)
     limit: int | None = None
     offset: int | None = None
+    # set by `summarize`, also when there is no column to group by
+    is_aggregated: bool = False
 
 
 class SqlImpl(TableImpl):
@@ -213,7 +215,11 @@ class SqlImpl(TableImpl):
             # TODO: ensure in tests that the dtype not only match after export to
             # polars, but also really in the backend
             return sqa.cast(sqa.literal(lit.val, literal_execute=True), cls.sqa_type(lit.dtype()))
-        return sqa.literal(lit.val, cls.sqa_type(lit.dtype()), literal_execute=True)
+        res = sqa.literal(lit.val, cls.sqa_type(lit.dtype()), literal_execute=True)
+        if isinstance(lit.val, int) and lit.val < 0:
+            # `-` in front of an inline negative number would start a comment (`--1`)
+            return sqa.sql.elements.Grouping(res)
+        return res
 
     @classmethod
     def compile_order(cls, order: Order, sqa_expr: dict[str, sqa.Label]) -> sqa.UnaryExpression:
@@ -444,7 +450,7 @@ class SqlImpl(TableImpl):
             query.select += nd.uuids
 
         elif isinstance(nd, verbs.Filter):
-            if query.group_by:
+            if query.is_aggregated:
                 query.having.extend(nd.predicates)
             else:
                 query.where.extend(nd.predicates)
@@ -465,6 +471,7 @@ class SqlImpl(TableImpl):
             ] + nd.uuids
             query.partition_by = []
             query.order_by.clear()
+            query.is_aggregated = True
 
         elif isinstance(nd, verbs.SliceHead):
             if query.limit is None:
@@ -546,6 +553,11 @@ class SqlImpl(TableImpl):
                 # Wrap right AST with Select to reorder columns and recompile
                 right_ast = verbs.Select(nd.right, reordered_cols)
                 right_table, right_query, right_sqa_expr = cls.compile_ast(right_ast, needed_cols)
+
+            # The result of a union is unordered and an ORDER BY is not allowed in the
+            # operands of a compound select (a preceding `slice_head` forces a subquery).
+            query.order_by = []
+            right_query.order_by = []
 
             # Build left and right select statements
             left_sel = cls.compile_query(table, query, sqa_expr)
